@@ -17,7 +17,7 @@ def region_lowercase_aa(msg):
     return (d == 11 or d == 17 or d == 18) and msg[2:8] != CS.icao(msg)
 
 
-@harness(("C02", "C17"), inputs={"msg": HexStr((14, 28))}, functions=[P + "icao"], body_of=[P + "icao"],
+@harness(("C02", "C17", "C14"), inputs={"msg": HexStr((14, 28))}, functions=[P + "icao"], body_of=[P + "icao"],
          regions=["region_lowercase_aa"])
 def icao_body(msg):
     assert outcome(PC.icao, msg) == outcome(CS.icao, msg), \
@@ -44,12 +44,12 @@ def icao_roundtrip_aa(head, addr, rest, case):
     assert PC.icao(msg) == hex_of_bits(addr), "icao(DF11/17/18 frame) == AA field, canonical upper case"
 
 
-@harness("C02", inputs={"msg": HexStr(28)}, functions=["pyModeS.decoder.adsb.icao"], body_of=["pyModeS.decoder.adsb.icao"])
+@harness(("C02", "C14"), inputs={"msg": HexStr(28)}, functions=["pyModeS.decoder.adsb.icao"], body_of=["pyModeS.decoder.adsb.icao"])
 def adsb_icao_body(msg):
     assert outcome(ADSB.icao, msg) == outcome(CS.icao, msg), "adsb.icao == icao"
 
 
-@harness("C02", inputs={"msg": HexStr((14, 28))}, functions=["pyModeS.decoder.allcall.icao"],
+@harness(("C02", "C14"), inputs={"msg": HexStr((14, 28))}, functions=["pyModeS.decoder.allcall.icao"],
          body_of=["pyModeS.decoder.allcall.icao"])
 def allcall_icao_body(msg):
     bits = F.hexbits(msg)
